@@ -121,6 +121,21 @@ class C16(HistoryProperty):
             if rng.random() < 0.3:
                 op["sw"]["spell"] = {w: [rng.random() < 0.6, rng.random() < 0.6] for w in ("cache", "effects", "logging") if rng.random() < 0.6}
         # the caller keeps ONE options dictionary and edits it in place between evaluations (in a third of the histories)
+        bases = [n for n in spec["nodes"] if n["k"] == "dataset" and n.get("effects") and not n.get("abstract")]
+        if bases and ops and rng.random() < 0.3:
+            # the per-dataset toggle is the dataset's own: a dataset DERIVED from one whose effects are switched off (and
+            # maybe on again later) was never toggled itself, so its effects run
+            base = rng.choice(bases)
+            node = {"k": "derive", "base": base["id"], "how": rng.choice(["with_options", "with_default_options"]), "options": {"Q8": rng.choice([0, "a"])}, "id": "late0"}
+            tail = [{"op": "disable_effects", "ds": base["id"]}, {"op": "derive", "node_def": node}]
+            if rng.random() < 0.5:
+                tail.append({"op": "enable_effects", "ds": base["id"]})
+            for _ in range(rng.randint(1, 2)):
+                o = rng.choice(ops)
+                tail.append({"op": "evaluate", "node": "late0", "o": o["o"], "mut": "derived-while-off",
+                             "sw": {"cache": rng.choice(["on", "ctx", "opt:DISABLED"]), "effects": "on", "logging": rng.choice(LOG_SW), "nest": False, "toggle_ds": base["id"]}})
+            tail.append({"op": "enable_effects", "ds": base["id"]})
+            ops = ops + tail
         return {"cfg": cfg, "spec": spec, "ops": ops, "nocache_variant": variant, "inplace": rng.random() < 0.33}
 
     @staticmethod
@@ -169,6 +184,19 @@ class C16(HistoryProperty):
                 shared_o = {}
                 with lrt.handle(LogRequest, rec):
                     for i, op in enumerate(case["ops"]):
+                        if op["op"] in ("disable_effects", "enable_effects"):
+                            if op["ds"] in w.prog.obj:
+                                w.do(op)  # (the warm world only: the reference has every switch off)
+                            continue
+                        if op["op"] == "derive":
+                            if op["node_def"]["base"] in w.prog.obj:
+                                w.do(op)
+                                ref.do(op)
+                                if case.get("nocache_variant"):
+                                    pass
+                            continue
+                        if op["node"] not in w.prog.obj:
+                            continue
                         sw = effective(op["sw"])
                         vectors.add((sw["cache"], sw["effects"], sw["logging"]))
                         cache_off = sw["cache"] != "on" or bool(case.get("nocache_variant"))
